@@ -91,7 +91,10 @@ pub struct Seen {
 pub fn send_upload(req: &Req, body: &[u8], steps: Option<Vec<Step>>) -> Result<Seen, String> {
     let mut r = req.clone();
     r.body = body.to_vec();
-    let out = ENV.with(|env| run_req(env, &r, Some(steps.unwrap_or_else(|| split_frames(body, &[]))), false))?;
+    // harness-chosen framings come, for half of the cases (a pure function of the case), over a transport that does
+    // not announce the body's length
+    let with_hint = steps.as_ref().is_none_or(|s| (s.len() + body.len()) % 2 == 0);
+    let out = ENV.with(|env| crate::props::authenv::run_req_hint(env, &r, Some(steps.unwrap_or_else(|| split_frames(body, &[]))), false, with_hint))?;
     if let Some(e) = out.transport_error {
         return Err(format!("transport error: {e}"));
     }
